@@ -87,9 +87,10 @@ def wrapOutput (handlers : List String) : Output → Option Outcome
   | .raises e => if caughtBy handlers e then some .diag else some (.crash e)
 
 /-- exceptions the output stage can raise on an accepted model: `open` on a path that does not exist, is a
-directory or is not writable; a load combination the BASIC input format cannot express -/
+directory or is not writable; a load combination the BASIC input format cannot express; a number beyond the float
+range handed to a `%g` format (an angle count of several hundred digits) -/
 def outputRaises : List Exc :=
-  [.OSError, .FileNotFoundError, .IsADirectoryError, .PermissionError, .NotImplementedError]
+  [.OSError, .FileNotFoundError, .IsADirectoryError, .PermissionError, .NotImplementedError, .OverflowError]
 
 inductive NumClass where
   | neg | zero | pos | inf | nan
